@@ -3,6 +3,10 @@
 Seam: `cij run-static INPUT01 [INPUT02] -I {none,volume,pressure} ...` invoked in-process (click CliRunner on
 cij.cli.cij:main) inside a per-case scratch cwd; the stdout table is parsed by static_ref.parse_table.
 
+The same data are also *presented* differently: volume blocks of INPUT01 and rows of INPUT02 in descending, ascending and
+shuffled order, --v-ratio 1.2/1.05/1.5, and explicit (P_MIN, DELTA_P, n) requests with non-binary steps; a least-squares
+fit does not depend on the listing order, so the reference is unchanged and mode-none rows follow the file's order.
+
 Oracle (mc.ref.static_ref, written from the statement, never imports cij), per row and per column:
   V        none: the input volumes; volume: n equidistant volumes from Vmin/1.2 to Vmax*1.2 (the documented meaning of
            --v-ratio, default 1.2); pressure: P_fit(V) = requested pressure                                   [A^3]
@@ -44,6 +48,7 @@ MOD = "mc.props.c18"
 RT_UNIT = 1e-7      # unit-bearing
 RT_FREE = 1e-9      # unit-free algebra
 V_RATIO = 1.2       # documented default of --v-ratio
+ORDERS = ["desc", "asc", "smallest-first", "largest-last", "middle-first"]
 
 PRANGES = {"r0": (0.0, 50.0), "r1": (-5.0, 60.0)}      # GPa, inside the pressures spanned by every volume set below
 TABLES = {               # name -> (synth system, -s argument)
@@ -64,7 +69,50 @@ DIMS = OrderedDict([
     ("data", ["bm3", "quad", "noise"]),
     ("nv", [6, 4, 12]),
     ("tabvols", ["same", "other"]),
+    # presentation of the same data: order of the volume blocks of INPUT01, of the rows of INPUT02; --v-ratio
+    ("order01", ["desc", "asc", "smallest-first", "largest-last", "middle-first"]),
+    ("order02", ["desc", "asc", "middle-first"]),
+    ("vratio", [None, 1.05, 1.5]),
 ])
+PRESENTATION = ("order01", "order02", "vratio")
+# explicit pressure requests (P_MIN, DELTA_P, n) with step sizes that are not binary fractions; all inside the fitted range
+REQUESTS = [(pmin, dp, n) for dp in (0.1, 0.3, 0.7) for n in (30, 53, 61, 101) for pmin in (0.0, -5.0, 0.1) if pmin + dp * (n - 1) <= 65.0]
+
+
+def permutation(order, nv):
+    """indices into the descending-volume listing"""
+    idx = list(range(nv))
+    if order in (None, "desc"):
+        return idx
+    if order == "asc":
+        return idx[::-1]
+    if order == "smallest-first":       # first*ratio can fall below the largest volume
+        return [nv - 1] + idx[:-1]
+    if order == "largest-last":         # last/ratio can lie above the smallest volume
+        return idx[1:] + [0]
+    if order == "middle-first":         # m, m+1, m-1, m+2, ...: still ends with the smallest volume
+        m = nv // 2 - 1
+        out = [m]
+        for k in range(1, nv):
+            for j in (m + k, m - k):
+                if 0 <= j < nv and j not in out:
+                    out.append(j)
+        return out
+    raise HarnessError(f"unknown order {order}")
+
+
+def reorder(ds, order):
+    perm = permutation(order, len(ds["vols"]))
+    if sorted(perm) != list(range(len(ds["vols"]))):
+        raise HarnessError(f"not a permutation: {perm}")
+    out = dict(ds)
+    out["vols"] = ds["vols"][perm]
+    out["energies"] = ds["energies"][perm]
+    out["freqs"] = ds["freqs"][perm]
+    out["table"] = {p: numpy.asarray(v)[perm] for p, v in ds["table"].items()}
+    if ds.get("lattice") is not None:
+        out["lattice"] = ds["lattice"][perm]
+    return out
 
 
 # ----------------------------------------------------------------------------- data sets
@@ -104,13 +152,13 @@ def write_inputs(d, case):
     ds = synth.make(spec)
     ds["energies"] = energies_of(case["data"], ds["vols"])
     with open(os.path.join(d, "input01"), "w") as fp:
-        fp.write(synth.phonon_file_text(ds))
+        fp.write(synth.phonon_file_text(reorder(ds, case.get("order01"))))
     args = ["run-static", "input01"]
     if system is not None:
         dt = ds if case.get("tabvols", "same") == "same" else synth.make(dict(spec, nv=5))
         dt["table"] = table_of(case["data"], dt)
         with open(os.path.join(d, "elast.dat"), "w") as fp:
-            fp.write(synth.static_file_text(dt))
+            fp.write(synth.static_file_text(reorder(dt, case.get("order02"))))
         args.append("elast.dat")
     if case.get("mode") is not None:
         args += ["-I", case["mode"]]
@@ -125,10 +173,14 @@ def write_inputs(d, case):
         args += ["-s", case.get("system_arg") or sarg]
     if case.get("cellmass") is not None:
         args += ["--cellmass", repr(float(case["cellmass"]))]
+    if case.get("vratio") is not None:
+        args += ["--v-ratio", repr(float(case["vratio"]))]
     return args
 
 
 def grid_of(case):
+    if case.get("request"):
+        return float(case["request"][0]), float(case["request"][1])
     pmin, pmax = PRANGES[case["prange"]]
     n = case["n"] if case.get("n") is not None else 201
     return pmin, (pmax - pmin) / (n - 1)
@@ -171,6 +223,7 @@ class Cmp:
         self.cells = 0
         self.worst = 0.0      # largest |observed - expected| / tolerance over all compared cells
         self.worst_by = {}
+        self.undefined = 0
 
     def col(self, cls, name, ref, extra=0.0, rtol=RT_UNIT, label=None):
         """observed column `name` against ref within half a printed unit + extra + rtol |ref|"""
@@ -179,10 +232,18 @@ class Cmp:
         obs = self.tab["values"][name]
         ref = numpy.asarray(ref, float)
         extra = numpy.broadcast_to(numpy.asarray(extra, float), ref.shape)
-        if not numpy.all(numpy.isfinite(obs)):
-            i = int(numpy.argmax(~numpy.isfinite(obs)))
-            self.viol.append(V(f"c18:{self.mode}:{cls}:nonfinite", f"column {name} row {i}: printed {toks[i]}"))
+        # rows where the reference itself is undefined (velocity of a non-positive modulus: table extrapolated far outside
+        # its volumes) are not compared; everywhere else the printed value must be a finite number
+        defined = numpy.isfinite(ref) & numpy.isfinite(extra)
+        self.undefined += int((~defined).sum())
+        if not numpy.all(numpy.isfinite(obs[defined])):
+            i = int(numpy.argmax(defined & ~numpy.isfinite(obs)))
+            self.viol.append(V(f"c18:{self.mode}:{cls}:nonfinite", f"column {name} row {i}: printed {toks[i]}, expected {float(ref[i])!r}"))
             return False
+        if not defined.any():
+            return True
+        toks = [t for t, k in zip(toks, defined) if k]
+        obs, ref, extra = obs[defined], ref[defined], extra[defined]
         hu = numpy.array([S.half_unit(t) for t in toks])
         tol = hu + extra + rtol * numpy.abs(ref)
         bad = ~(numpy.abs(obs - ref) <= tol)
@@ -251,7 +312,8 @@ def run_case(case):
     Vb = tab["values"]["V"] / S.ANG3_PER_BOHR3                  # reported volumes in bohr^3
     hV = numpy.array([S.half_unit(t) for t in tab["tokens"]["V"]])
     dV = hV / S.ANG3_PER_BOHR3 + RT_UNIT * numpy.abs(Vb)
-    grid = numpy.linspace(vols.min() / V_RATIO, vols.max() * V_RATIO, n)   # where a numerical derivative would live
+    ratio = float(case["vratio"]) if case.get("vratio") is not None else V_RATIO
+    grid = numpy.linspace(vols.min() / ratio, vols.max() * ratio, n)   # where a numerical derivative would live
     lo, hi = float(model.P_gpa(vols.max())), float(model.P_gpa(vols.min()))
     pscale = max(abs(lo), abs(hi))
     f_extra = 0.0
@@ -268,7 +330,7 @@ def run_case(case):
             viol.append(V("c18:volume:rows", f"`{cmdline}`: {nrow} rows for -n {n}"))
             return {"viol": viol, "outcome": viol[0]["sig"]}
         g = grid if Vb[0] <= Vb[-1] else grid[::-1]
-        if c.col("V", "V", g * S.ANG3_PER_BOHR3, label=f"V (equidistant from Vmin/{V_RATIO} to Vmax*{V_RATIO})"):
+        if c.col("V", "V", g * S.ANG3_PER_BOHR3, label=f"V (equidistant from Vmin/{ratio:g} to Vmax*{ratio:g})"):
             nb = S.node_bound(eos, g) * S.GPA_PER_AU
             c.col("P", "P", model.P_gpa(g), extra=nb + RT_UNIT * pscale, label=f"P = -dF/dV of the fit (n={n})")
     else:
@@ -347,7 +409,7 @@ def run_case(case):
     ncomp = len(model.fits)
     return {"viol": viol, "nontrivial": nrow >= 3 and c.cells >= 3 * nrow,
             "outcome": (f"ok/{mode}/{'table' + str(ncomp) if st is not None else 'eos-only'}{'/density' if model.mass is not None else ''}" if not viol else viol[0]["sig"]),
-            "cells": c.cells, "worst": c.worst, "worst_by": {f"{mode}:{k}": v for k, v in c.worst_by.items()}}
+            "cells": c.cells, "undefined": c.undefined, "worst": c.worst, "worst_by": {f"{mode}:{k}": v for k, v in c.worst_by.items()}}
 
 
 # ----------------------------------------------------------------------------- exploration
@@ -358,6 +420,7 @@ def canon(case):
         c["prange"], c["sample"] = "r0", None
     if c["table"] == "none":
         c["tabvols"] = "same"
+        c["order02"] = "desc"
     return c
 
 
@@ -375,35 +438,69 @@ def edge_cases():
     return out
 
 
+def request_cases(quick):
+    """explicit (P_MIN, DELTA_P, n) requests with non-binary step sizes: n rows at P_MIN + j*DELTA_P, no more, no fewer"""
+    base = dict(mode="pressure", prange="r0", cellmass=None, data="bm3", nv=6, tabvols="same")
+    out = []
+    for pmin, dp, n in REQUESTS:
+        for table in (("none", "ortho9") if quick else ("none", "ortho9", "cubic+s")):
+            for order in (("desc", "asc") if quick else ORDERS):
+                for sample in ((None,) if quick else (None, 2)):
+                    out.append(dict(base, request=[pmin, dp], n=n, table=table, order01=order, order02="desc", sample=sample))
+    return out
+
+
 def explore(ctx):
     ctx.rule = ("mode A: deviation lattice over mode (3) x -n (11,101,401) x pressure range (2, inside the fitted range; DELTA_P = span/(n-1)) x "
                 "--delta-p-sample (absent, 2x, 5x DELTA_P) x static table (absent, orthotropic 9, orthotropic 9 + -s, cubic 3 + -s cubic, "
                 "trigonal 7 + -s trigonal7) x --cellmass (absent, given) x data (exactly quadratic in f, BM3 with B0'=5.5, BM3 + deterministic noise; "
-                "the table likewise) x number of volumes (6,4,12) x table volumes (same as the energies, a different 5-volume set); "
-                "every configuration is one in-process `cij run-static` whose stdout table is compared cell by cell with static_ref; "
-                "quick: <= 2 deviations from the default, thorough: full product; plus 6 edge invocations (-s without table, sample = 1, defaults); "
-                "non-trivial = a table of >= 3 rows with >= 3 compared columns")
+                "the table likewise) x number of volumes (6,4,12) x table volumes (same as the energies, a different 5-volume set) x presentation: "
+                "order of the volume blocks of INPUT01 (descending, ascending, smallest first, largest last, middle first) x row order of INPUT02 "
+                "(descending, ascending, middle first) x --v-ratio (default, 1.05, 1.5); every configuration is one in-process `cij run-static` whose "
+                "stdout table is compared cell by cell with static_ref (order-independent least squares; mode-none rows in the file's order). "
+                "quick: <= 2 deviations from the default; thorough: <= 3 deviations over all 12 dimensions + the full product of the 9 data/option "
+                "dimensions in the default presentation + the full product of the 3 presentation dimensions x mode x n x table (3) x data. "
+                "Plus explicit pressure requests P_MIN in {0,-5,0.1} x DELTA_P in {0.1,0.3,0.7} x n in {30,53,61,101} (inside the fitted range) x table x "
+                "INPUT01 order, and 6 edge invocations (-s without table, sample = 1, defaults); non-trivial = a table of >= 3 rows with >= 3 compared columns")
     ctx.assumptions = [
         "pressure ranges lie inside the pressures spanned by the input volumes (asserted per case against the reference fit)",
         "--delta-p-sample is an integer multiple (1, 2, 5) of --delta-p; other ratios are outside the statement",
-        "volume-mode grid = n equidistant volumes from Vmin/1.2 to Vmax*1.2 (the documented meaning of --v-ratio, default), either order",
+        "volume-mode grid = n equidistant volumes from Vmin/ratio to Vmax*ratio (the documented meaning of --v-ratio), either order",
+        "the fit does not depend on the order in which volumes are listed in either input file; mode none reports the rows in INPUT01's order",
         "tolerances: printed half unit + 1e-7 (unit-bearing) / 1e-9 (unit-free) relative + Taylor-remainder bounds of a difference quotient on the n-point grid "
         "propagated through a cubic spline (mode none) or 4-point Lagrange inverse interpolation (pressure mode); at n=11 these bounds are wide "
         "(P: several GPa at the grid ends, F(P): ~0.1 eV), at n=401 they are ~1e-3 GPa and ~1e-4 eV",
         "constraint relations of the crystal systems follow the standard setting (checked against rotations in the selftest); the packaged relation files are C08/C09's subject",
     ]
     dims = OrderedDict((k, list(v)) for k, v in DIMS.items())
-    bound = 2 if ctx.quick else None
-    cases, res = ctx.run_lattice(MOD, "run_case", dims, bound, part=f"lattice<={bound if bound is not None else len(dims)}", canon=canon, chunksize=2)
+    allres = []
+    if ctx.quick:
+        _, res = ctx.run_lattice(MOD, "run_case", dims, 2, part="lattice<=2", canon=canon, chunksize=2)
+        allres += res
+    else:
+        _, res = ctx.run_lattice(MOD, "run_case", dims, 3, part="lattice<=3", canon=canon, chunksize=2)
+        allres += res
+        core = OrderedDict((k, (list(v) if k not in PRESENTATION else [v[0]])) for k, v in DIMS.items())
+        _, res = ctx.run_lattice(MOD, "run_case", core, None, part="full-product:data-and-options", canon=canon, chunksize=4)
+        allres += res
+        pres = OrderedDict((k, [v[0]]) for k, v in DIMS.items())
+        for k in PRESENTATION + ("mode", "n", "data"):
+            pres[k] = list(DIMS[k])
+        pres["table"] = ["ortho9", "none", "trigonal7+s"]
+        _, res = ctx.run_lattice(MOD, "run_case", pres, None, part="full-product:presentation", canon=canon, chunksize=4)
+        allres += res
     ctx.notes["alphabets"] = {k: len(v) for k, v in dims.items()}
-    ctx.notes["cells_compared"] = int(sum(r.get("cells", 0) or 0 for r in res))
+    reqs = request_cases(ctx.quick)
+    allres += ctx.run(MOD, "run_case", reqs, part="pressure-requests", chunksize=2)
+    ctx.notes["pressure_requests"] = {"requests": len(REQUESTS), "cases": len(reqs)}
     edges = edge_cases()
-    res2 = ctx.run(MOD, "run_case", edges, part="edge-invocations", chunksize=1)
+    allres += ctx.run(MOD, "run_case", edges, part="edge-invocations", chunksize=1)
     ctx.notes["edge_invocations"] = len(edges)
-    ctx.notes["cells_compared"] += int(sum(r.get("cells", 0) or 0 for r in res2))
-    ctx.notes["largest_error_over_tolerance"] = max([float(r.get("worst") or 0.0) for r in list(res) + list(res2)] or [0.0])
+    ctx.notes["cells_compared"] = int(sum(r.get("cells", 0) or 0 for r in allres))
+    ctx.notes["cells_not_compared_reference_undefined"] = int(sum(r.get("undefined", 0) or 0 for r in allres))
+    ctx.notes["largest_error_over_tolerance"] = max([float(r.get("worst") or 0.0) for r in allres] or [0.0])
     by = {}
-    for r in list(res) + list(res2):
+    for r in allres:
         for k, v in (r.get("worst_by") or {}).items():
             by[k] = max(by.get(k, 0.0), float(v))
     ctx.notes["largest_error_over_tolerance_by_column"] = {k: round(v, 4) for k, v in sorted(by.items())}
@@ -424,4 +521,8 @@ def selftest():
             fit = S.StrainFit(vols, energies_of(data, vols))
             lo, hi = fit.pressure(vols.max()) * S.GPA_PER_AU, fit.pressure(vols.min()) * S.GPA_PER_AU
             ok &= all(lo <= a and b <= hi for a, b in PRANGES.values())
+            ok &= all(lo <= pmin and pmin + dp * (n - 1) <= hi for pmin, dp, n in REQUESTS)
+        for order in ORDERS:
+            ok &= sorted(permutation(order, nv)) == list(range(nv))
+        ok &= permutation("smallest-first", nv)[0] == nv - 1 and permutation("largest-last", nv)[-1] == 0 and permutation("asc", nv)[0] == nv - 1
     return bool(ok)
